@@ -40,6 +40,17 @@ def alphabet(rng, limited):
         ops.append((f"evalH({rn})", lambda w, Rq=Rq: np.asarray(w.evaluate(spherical.Modes(mw.copy(), spin_weight=-1, ell_min=0, ell_max=4), Rq, horner=True))))
         ops.append((f"evalM({rn})", lambda w, Rq=Rq: np.asarray(w.evaluate(spherical.Modes(np.concatenate([mw, np.zeros(36 - 25)]) if False else helpers_pad(mw, 5), spin_weight=-1, ell_min=0, ell_max=5), Rq, horner=False))))
         ops.append((f"H({rn})", lambda w, b=beta: w.H(b, w.Hwedge, w.Hv, w.Hextra).copy()))
+        if rn in ("generic", "near-pole", "pole-"):
+            # explicit workspaces whose previous content is arbitrary (np.empty garbage may be NaN/inf): the result may not depend on it
+            def dirty(w, val):
+                ws = w.new_workspace()
+                ws[:] = val
+                ws[::3] = -7.25
+                return ws
+            ops.append((f"sYlm(-1,ws=nan,{rn})", lambda w, Rq=Rq: w.sYlm(-1, Rq, workspace=dirty(w, float("nan")))))
+            if not limited:
+                ops.append((f"D(ws=1e300,{rn})", lambda w, Rq=Rq: w.D(Rq, workspace=dirty(w, 1e300))))
+                ops.append((f"D(ws=nan,{rn})", lambda w, Rq=Rq: w.D(Rq, workspace=dirty(w, float("nan")))))
     return ops
 
 
@@ -72,6 +83,13 @@ def check(run):
         fresh = {}
         for name, f in ops:
             fresh[name] = np.array(f(make()), copy=True)
+        for name, f in ops:     # a call through a dirty explicit workspace is held to the result of the plain call on a fresh object
+            if "ws=" in name:
+                base = name.replace("ws=nan,", "").replace("ws=1e300,", "")
+                if not same(name, fresh[name], fresh[base]):
+                    run.violation("result-depends-on-history", name, {"sequence": [name], "calculator": "limited" if limited else "full", "workspace": "explicit, prefilled"},
+                                  "the result of the same call with a clean workspace", "differs")
+                fresh[name] = fresh[base]
         run.notes[f"alphabet_size_{'limited' if limited else 'full'}"] = len(ops)
         depth = 2 if quick else 3
         seqs = list(itertools.product(range(len(ops)), repeat=2))
